@@ -77,6 +77,10 @@ type c05Pipe struct {
 	parked  bool
 	release bool
 	tap     func(p []byte) // called under mu with every appended slice, in wire order
+	// flow control: stallAfter >= 0 = the peer's window takes that many more bytes, then Writes block
+	// until the write deadline (wdl) expires -> (bytes accepted, timeout), as net.Conn permits
+	stallAfter int64
+	wdl        time.Time
 	// reader goroutine -> harness
 	results []c05RR
 	rdone   bool
@@ -86,7 +90,7 @@ type c05Pipe struct {
 }
 
 func c05NewPipe() *c05Pipe {
-	q := &c05Pipe{limit: -1}
+	q := &c05Pipe{limit: -1, stallAfter: -1}
 	q.cond = sync.NewCond(&q.mu)
 	return q
 }
@@ -161,14 +165,58 @@ func (q *c05Pipe) Write(p []byte) (int, error) {
 	if q.wclosed {
 		return 0, io.ErrClosedPipe
 	}
+	accepted := 0
+	for q.stallAfter >= 0 && len(p) > 0 {
+		if room := q.stallAfter; room > 0 {
+			take := int64(len(p))
+			if take > room {
+				take = room
+			}
+			q.appendLocked(p[:take])
+			q.stallAfter -= take
+			accepted += int(take)
+			p = p[take:]
+			continue
+		}
+		if !q.wdl.IsZero() {
+			d := time.Until(q.wdl)
+			if d <= 0 {
+				return accepted, c05Timeout{}
+			}
+			time.AfterFunc(d+time.Millisecond, func() { q.mu.Lock(); q.cond.Broadcast(); q.mu.Unlock() })
+		}
+		q.cond.Wait()
+		if q.wclosed {
+			return accepted, io.ErrClosedPipe
+		}
+	}
+	q.appendLocked(p)
+	q.writes++
+	return accepted + len(p), nil
+}
+
+func (q *c05Pipe) appendLocked(p []byte) {
 	q.buf = append(q.buf, p...)
 	q.wrOff += int64(len(p))
-	q.writes++
-	if q.tap != nil {
+	if q.tap != nil && len(p) > 0 {
 		q.tap(p)
 	}
 	q.cond.Broadcast()
-	return len(p), nil
+}
+
+type c05Timeout struct{}
+
+func (c05Timeout) Error() string   { return "c05: write deadline exceeded" }
+func (c05Timeout) Timeout() bool   { return true }
+func (c05Timeout) Temporary() bool { return true }
+func (c05Timeout) Is(t error) bool { return t == os.ErrDeadlineExceeded }
+
+// stall arms the flow control: the next n bytes are accepted, then the window is full (n < 0: off)
+func (q *c05Pipe) stall(n int64) {
+	q.mu.Lock()
+	q.stallAfter = n
+	q.cond.Broadcast()
+	q.mu.Unlock()
 }
 
 func (q *c05Pipe) closeWrite() {
@@ -258,11 +306,30 @@ func (c *c05Conn) Close() error {
 	}
 	return nil
 }
-func (c *c05Conn) LocalAddr() net.Addr              { return c05Addr{} }
-func (c *c05Conn) RemoteAddr() net.Addr             { return c05Addr{} }
-func (c *c05Conn) SetDeadline(time.Time) error      { return nil }
-func (c *c05Conn) SetReadDeadline(time.Time) error  { return nil }
-func (c *c05Conn) SetWriteDeadline(time.Time) error { return nil }
+func (c *c05Conn) LocalAddr() net.Addr             { return c05Addr{} }
+func (c *c05Conn) RemoteAddr() net.Addr            { return c05Addr{} }
+func (c *c05Conn) SetDeadline(t time.Time) error   { return c.SetWriteDeadline(t) }
+func (c *c05Conn) SetReadDeadline(time.Time) error { return nil }
+func (c *c05Conn) SetWriteDeadline(t time.Time) error {
+	if c.wr != nil {
+		c.wr.mu.Lock()
+		c.wr.wdl = t
+		c.wr.cond.Broadcast()
+		c.wr.mu.Unlock()
+	}
+	return nil
+}
+
+// c05FailWrite makes the next Write on the TLSConn time out after the transport accepted `accept`
+// bytes: the peer's window is full and the write deadline has already expired.
+func c05FailWrite(wr *TLSConn, q *c05Pipe, accept int64, msg []byte) (n int, err error, pan string) {
+	q.stall(accept)
+	wr.SetWriteDeadline(time.Now().Add(-time.Second))
+	n, err, pan = c05SafeWrite(wr, msg)
+	q.stall(-1)
+	wr.SetWriteDeadline(time.Time{})
+	return
+}
 
 func c05NewPair() (a, b *c05Conn, ab, ba *c05Pipe) {
 	ab, ba = c05NewPipe(), c05NewPipe()
@@ -396,13 +463,14 @@ func c05Judge(exp c05Exp, want []byte, got c05RR) (key, what string) {
 // ------------------------------------------------------------------------- B1: behaviour replay
 
 type c05Step struct {
-	A   string `json:"a"`
-	W   int    `json:"w"`
-	K   int    `json:"k"`
-	Len int    `json:"len"`
-	Rec int    `json:"rec"`
-	N   int    `json:"n"`
-	Err bool   `json:"err"`
+	A    string `json:"a"`
+	W    int    `json:"w"`
+	K    int    `json:"k"`
+	Len  int    `json:"len"`
+	Rec  int    `json:"rec"`
+	N    int    `json:"n"`
+	Err  bool   `json:"err"`
+	Sent int    `json:"sent"`
 }
 
 type c05Behaviour struct {
@@ -549,6 +617,36 @@ func c05RunBehaviour(b *c05Behaviour, c c05Conc) (key, what string, table []stri
 			if st.Len > 0 {
 				groups = append(groups, c05Groups(rl, st.Len, c.Split)...)
 			}
+		case "F": // the transport fails this Write after st.Sent model bytes
+			rl := c.Lens[st.Len]
+			tok := c.Tok + 500 + uint64(si)
+			if st.Sent > 0 {
+				tok = c.Tok + uint64(st.Rec)
+				lens[st.Rec] = rl
+			}
+			msg := kit.TokenBytes(tok, rl)
+			recGroups := append([]int(nil), c.Hdr...)
+			if st.Len > 0 {
+				recGroups = append(recGroups, c05Groups(rl, st.Len, c.Split)...)
+			}
+			var accept int64
+			for _, g := range recGroups[:st.Sent] {
+				accept += int64(g)
+			}
+			if rl <= c05MaxTLSWrite {
+				n, err, pan := c05FailWrite(wr, q, accept, msg)
+				table = append(table, fmt.Sprintf("step %d F(%d bytes, transport accepts %d): Write returned n=%d err=%v panic=%q", si, rl, accept, n, err, pan))
+				if pan != "" {
+					return "write-panic", "TLSConn.Write panicked: " + pan, table
+				}
+				if err == nil {
+					return "failed-write-reported-ok", fmt.Sprintf("the transport failed the Write of a %d-byte message after %d bytes but TLSConn.Write returned nil", rl, accept), table
+				}
+			} else { // a peer's oversize record, torn
+				a.Write(c05RawRecord(msg)[:accept])
+				table = append(table, fmt.Sprintf("step %d F(%d bytes): %d raw bytes of a torn record", si, rl, accept))
+			}
+			groups = append(groups, recGroups[:st.Sent]...)
 		case "C":
 			var real int64
 			for _, g := range groups[:st.N] {
@@ -594,6 +692,11 @@ func c05Drift(b *c05Behaviour) bool {
 	for _, s := range b.Steps {
 		if s.A == "W" {
 			lens = append(lens, s.Len)
+		}
+		if s.A == "F" && s.Sent > 0 { // a torn record: never a message; an error iff its header is whole and oversize
+			if s.Sent >= b.H && s.Len > b.Buf {
+				lens = append(lens, s.Len)
+			}
 		}
 	}
 	exp := c05Expect(lens, b.Buf, 1)
@@ -914,6 +1017,22 @@ func TestVerifC05Live(t *testing.T) {
 	defer tw.Close()
 	c05SweepBody(res)
 	c05ConcBody(res, tw)
+	c05FaultBody(res, tw)
+	c05BoundaryBody(res, tw)
+}
+
+// TestVerifC05Fault = failing-write scenarios and the Write-size boundary sweep alone (replays)
+func TestVerifC05Fault(t *testing.T) {
+	res := kit.NewResult()
+	defer func() { res.Save(true) }()
+	if rp := kit.Env("VERIF_REPLAY", ""); rp != "" {
+		c05ReplayFile(t, rp)
+		return
+	}
+	tw := kit.NewTraceWriter("trace.ndjson")
+	defer tw.Close()
+	c05FaultBody(res, tw)
+	c05BoundaryBody(res, tw)
 }
 
 func c05SweepBody(res *kit.Result) {
@@ -1769,17 +1888,476 @@ func c05ConcBody(res *kit.Result, tw *kit.TraceWriter) {
 	res.Stat("trace_events", tw.Events())
 }
 
+// ------------------------------------------------- failing writes (WriteFail of RecordLayer.tla)
+
+type c05Op struct {
+	Len  int    `json:"len"`
+	Fail string `json:"fail,omitempty"` // "" = the Write succeeds, "zero" = times out with nothing sent, "part" = after Sent bytes
+	Sent int    `json:"sent,omitempty"`
+}
+
+type c05FaultCase struct {
+	Conn string  `json:"conn"` // "seg" | "pipe" (net.Pipe)
+	Ops  []c05Op `json:"ops"`
+	Hold bool    `json:"hold"` // seg: the reader gets nothing until all writes are done (coalesced)
+	Wait bool    `json:"wait"` // pipe: the deadline lies 2 ms ahead (the writer really waits) instead of in the past
+}
+
+// what the receiving side must see: exactly the messages whose Write succeeded, whole, in order
+func c05FaultJudge(ops []c05Op, msgs [][]byte, i int, okIdx []int, got c05RR) (key, what string) {
+	if i >= len(okIdx) {
+		if got.Err != "" || got.Panic != "" {
+			return "", ""
+		}
+		for j, op := range ops {
+			if op.Fail != "" && bytes.Equal(got.Data, msgs[j]) {
+				return "failed-write-delivered", fmt.Sprintf("message %d (%d bytes), whose Write reported failure, was delivered", j, op.Len)
+			}
+		}
+		return "surplus-return", fmt.Sprintf("Read returned %d bytes beyond the messages written successfully", got.N)
+	}
+	want := msgs[okIdx[i]]
+	k, w := c05Judge(c05Exp{Len: len(want)}, want, got)
+	if k != "" && got.Err == "" {
+		for j, op := range ops {
+			if op.Fail != "" && bytes.Equal(got.Data, msgs[j]) {
+				return "failed-write-delivered", fmt.Sprintf("message %d (%d bytes), whose Write reported failure%s, was delivered in place of message %d",
+					j, op.Len, map[bool]string{true: " with nothing sent", false: ""}[op.Fail == "zero"], okIdx[i])
+			}
+		}
+	}
+	return k, w
+}
+
+func c05FaultPlan(ops []c05Op) (msgs [][]byte, okIdx []int) {
+	for i, op := range ops {
+		msgs = append(msgs, c05Msg(1, i+1, op.Len))
+		if op.Fail == "" {
+			okIdx = append(okIdx, i)
+		}
+	}
+	return
+}
+
+// c05FaultSeg: one TLSConn over the segmenting conn; failing Writes = full window + expired deadline.
+func c05FaultSeg(tw *kit.TraceWriter, fc c05FaultCase, bufLen int) (key, what string) {
+	a, b, q, _ := c05NewPair()
+	c05Watch(q)
+	tap := &c05TLSTap{emit: func(body []byte) {
+		w, id, ok := c05Decode(body)
+		if !ok {
+			w, id = 0, 0
+		}
+		if tw != nil {
+			tw.Emit(map[string]any{"ev": "W", "w": w, "id": id, "len": len(body), "ok": ok})
+		}
+	}}
+	q.tap = tap.feed
+	if fc.Hold {
+		q.limit = 0
+	}
+	wr, rd := NewTLSConn(a), NewTLSConn(b)
+	go c05ReaderLoop(q, rd, bufLen, 0)
+	defer func() {
+		q.closeWrite()
+		q.mu.Lock()
+		q.limit = -1
+		q.cond.Broadcast()
+		for !q.rdone {
+			q.cond.Wait()
+		}
+		q.mu.Unlock()
+	}()
+	if tw != nil {
+		tw.Emit(map[string]any{"ev": "Reset", "buf": bufLen, "kind": "fault-seg", "k": 1})
+	}
+	msgs, okIdx := c05FaultPlan(fc.Ops)
+	calls, torn := 0, false
+	for i, op := range fc.Ops {
+		switch op.Fail {
+		case "":
+			n, err, pan := c05SafeWrite(wr, msgs[i])
+			if pan != "" {
+				return "write-panic", fmt.Sprintf("op %d: Write panicked: %s", i, pan)
+			}
+			if err != nil {
+				return "write-error", fmt.Sprintf("op %d: Write of %d bytes on a healthy connection returned n=%d err=%v", i, op.Len, n, err)
+			}
+		default:
+			accept := int64(0)
+			if op.Fail == "part" {
+				accept = int64(op.Sent)
+			}
+			_, err, pan := c05FailWrite(wr, q, accept, msgs[i])
+			if pan != "" {
+				return "write-panic", fmt.Sprintf("op %d: Write panicked: %s", i, pan)
+			}
+			if err == nil {
+				return "failed-write-reported-ok", fmt.Sprintf("op %d: the transport timed the Write out after %d bytes but TLSConn.Write returned nil", i, accept)
+			}
+			if op.Fail == "zero" && tw != nil {
+				tw.Emit(map[string]any{"ev": "WF", "w": 1, "id": i + 1, "len": op.Len, "sent": 0})
+			}
+			torn = op.Fail == "part"
+		}
+		calls++
+		if torn {
+			break
+		}
+	}
+	q.mu.Lock()
+	q.limit = -1
+	q.cond.Broadcast()
+	q.mu.Unlock()
+	if !q.settle() {
+		return "harness-stuck", "reader did not settle"
+	}
+	for i := 0; ; i++ {
+		got, ok := q.popResult()
+		if !ok {
+			if i < len(okIdx) && !(torn && okIdx[i] >= calls) {
+				return "no-return", fmt.Sprintf("message %d was written successfully and is whole on the wire but was not delivered", okIdx[i])
+			}
+			break
+		}
+		if tw != nil && got.Panic == "" {
+			w, id, dok := c05Decode(got.Data)
+			if !dok || got.Err != "" {
+				w, id = 0, 0
+			}
+			tw.Emit(map[string]any{"ev": "R", "w": w, "id": id, "len": got.N, "err": got.Err != ""})
+		}
+		if k, w := c05FaultJudge(fc.Ops, msgs, i, okIdx, got); k != "" {
+			return k, w
+		}
+	}
+	if tw != nil && !torn {
+		tw.Emit(map[string]any{"ev": "End", "cnt": []int{calls}})
+	}
+	return "", ""
+}
+
+type c05LimitConn struct { // lets `budget` bytes through, then blocks until closed (a peer that stops reading)
+	net.Conn
+	budget int
+	done   chan struct{}
+}
+
+func (c *c05LimitConn) Read(p []byte) (int, error) {
+	if c.budget <= 0 {
+		<-c.done
+		return 0, io.EOF
+	}
+	if len(p) > c.budget {
+		p = p[:c.budget]
+	}
+	n, err := c.Conn.Read(p)
+	c.budget -= n
+	return n, err
+}
+
+// c05FaultNetPipe: the same over net.Pipe (synchronous, honours deadlines itself): a Write succeeds while
+// the peer is reading; with the peer not reading it times out with zero bytes sent.
+func c05FaultNetPipe(fc c05FaultCase, bufLen int) (key, what string) {
+	p1, p2 := net.Pipe()
+	defer p1.Close()
+	defer p2.Close()
+	lim := &c05LimitConn{Conn: p2, budget: 1 << 40, done: make(chan struct{})}
+	wr, rd := NewTLSConn(p1), NewTLSConn(lim)
+	readCh, resCh := make(chan struct{}), make(chan c05RR, 1)
+	go func() {
+		buf := make([]byte, bufLen)
+		for range readCh {
+			resCh <- c05SafeRead(rd, buf)
+		}
+	}()
+	defer close(readCh)
+	msgs, okIdx := c05FaultPlan(fc.Ops)
+	nOK := 0
+	for i, op := range fc.Ops {
+		switch op.Fail {
+		case "":
+			readCh <- struct{}{}
+			wr.SetWriteDeadline(time.Now().Add(500 * time.Millisecond))
+			n, err, pan := c05SafeWrite(wr, msgs[i])
+			if pan != "" {
+				return "write-panic", fmt.Sprintf("op %d: Write panicked: %s", i, pan)
+			}
+			var got c05RR
+			select {
+			case got = <-resCh:
+			case <-time.After(3 * time.Second):
+				return "no-return", fmt.Sprintf("op %d: Write returned n=%d err=%v but the peer's Read did not return", i, n, err)
+			}
+			if k, w := c05FaultJudge(fc.Ops, msgs, nOK, okIdx, got); k != "" {
+				return k, fmt.Sprintf("op %d: %s", i, w)
+			}
+			if err != nil {
+				return "write-error", fmt.Sprintf("op %d: the peer read the whole message but Write returned n=%d err=%v", i, n, err)
+			}
+			nOK++
+		case "zero":
+			d := -time.Second
+			if fc.Wait {
+				d = 2 * time.Millisecond
+			}
+			wr.SetWriteDeadline(time.Now().Add(d))
+			_, err, pan := c05SafeWrite(wr, msgs[i])
+			if pan != "" {
+				return "write-panic", fmt.Sprintf("op %d: Write panicked: %s", i, pan)
+			}
+			if err == nil {
+				return "failed-write-reported-ok", fmt.Sprintf("op %d: nobody read, the deadline expired, yet Write returned nil", i)
+			}
+		case "part": // the peer takes Sent bytes and stops; the Write times out; the connection is closed
+			lim.budget = op.Sent
+			readCh <- struct{}{}
+			wr.SetWriteDeadline(time.Now().Add(20 * time.Millisecond))
+			_, err, pan := c05SafeWrite(wr, msgs[i])
+			if pan != "" {
+				return "write-panic", fmt.Sprintf("op %d: Write panicked: %s", i, pan)
+			}
+			if err == nil {
+				return "failed-write-reported-ok", fmt.Sprintf("op %d: the peer took %d bytes only, the deadline expired, yet Write returned nil", i, op.Sent)
+			}
+			p1.Close()
+			close(lim.done)
+			select {
+			case got := <-resCh:
+				if got.Err == "" && got.Panic == "" {
+					return "torn-delivered", fmt.Sprintf("op %d: %d bytes of a record were sent, the Read returned %d bytes as a message", i, op.Sent, got.N)
+				}
+			case <-time.After(3 * time.Second):
+				return "harness-stuck", "reader of the torn record did not return after close"
+			}
+			return "", ""
+		}
+	}
+	return "", ""
+}
+
+func c05FaultCases(maxLen int) (out [][]c05Op) {
+	alphabet := []c05Op{{Len: 5}, {Len: 300}, {Len: 7, Fail: "zero"}, {Len: 1000, Fail: "zero"}}
+	var rec func(cur []c05Op)
+	rec = func(cur []c05Op) {
+		if len(cur) > 0 {
+			hasFail := false
+			for _, o := range cur {
+				hasFail = hasFail || o.Fail != ""
+			}
+			if hasFail {
+				out = append(out, append([]c05Op(nil), cur...))
+				for _, sent := range []int{1, 5, 6} { // ... and a torn record at the very end
+					out = append(out, append(append([]c05Op(nil), cur...), c05Op{Len: 64, Fail: "part", Sent: sent}))
+				}
+			}
+		}
+		if len(cur) == maxLen {
+			return
+		}
+		for _, o := range alphabet {
+			rec(append(cur, o))
+		}
+	}
+	rec(nil)
+	out = append(out, []c05Op{{Len: 9}, {Len: 64, Fail: "part", Sent: 3}}, []c05Op{{Len: 64, Fail: "part", Sent: 68}},
+		[]c05Op{{Len: 16384, Fail: "zero"}, {Len: 16384}, {Len: 4}}, []c05Op{{Len: 4, Fail: "zero"}, {Len: 16640}, {Len: 4, Fail: "zero"}, {Len: 4}})
+	return
+}
+
+func c05FaultBody(res *kit.Result, tw *kit.TraceWriter) {
+	codeBuf, _ := c05CodeBuf()
+	t0 := time.Now()
+	maxLen := 3
+	if kit.Thorough() {
+		maxLen = 4
+	}
+	pipeViol := 0
+	for ci, ops := range c05FaultCases(maxLen) {
+		if res.NumViolations() > 30 {
+			break
+		}
+		fc := c05FaultCase{Conn: "seg", Ops: ops, Hold: ci%2 == 1}
+		rec := tw
+		if ops[len(ops)-1].Fail == "part" {
+			rec = nil // a torn record ends the connection: judged here, not recorded for TLC
+		}
+		key, what := c05FaultSeg(rec, fc, codeBuf)
+		res.Count(fmt.Sprintf("%+v", fc), true)
+		res.Stat("fault_seg_cases", 1)
+		if key == "harness-stuck" {
+			res.Stat("harness_stuck", 1)
+		} else if key != "" {
+			res.Violate("tls:"+key, what, map[string]any{"kind": "fault", "case": fc})
+		}
+		// net.Pipe: every case up to 3 ops (each torn case costs a 20 ms deadline)
+		if (len(ops) <= 3 || kit.Thorough()) && pipeViol < 3 && (ops[len(ops)-1].Fail != "part" || ci%4 == 0) {
+			fc := c05FaultCase{Conn: "pipe", Ops: ops, Wait: ci%8 == 2}
+			key, what := c05FaultNetPipe(fc, codeBuf)
+			res.Count(fmt.Sprintf("%+v", fc), true)
+			res.Stat("fault_netpipe_cases", 1)
+			if key == "harness-stuck" {
+				res.Stat("harness_stuck", 1)
+			} else if key != "" {
+				pipeViol++
+				res.Violate("tls:"+key, what, map[string]any{"kind": "fault", "case": fc})
+			}
+			if ci == 5 {
+				res.Sample(fc, 12)
+			}
+		}
+	}
+	res.Stat("fault_ms", time.Since(t0).Milliseconds())
+}
+
+// --------------------------------------------- Write-size boundary sweep (Fits of RecordLayer.tla)
+
+// c05BoundaryLens: around every power of two the 16-bit length field knows, around 2^14+256, and beyond.
+// Nothing here assumes where Write draws its line: whatever Write ACCEPTS must arrive whole.
+func c05BoundaryLens() []int {
+	set := map[int]bool{}
+	for k := 0; k <= 17; k++ {
+		for d := -1; d <= 1; d++ {
+			if v := 1<<k + d; v >= 0 {
+				set[v] = true
+			}
+		}
+	}
+	for _, v := range []int{1<<14 + 255, 1<<14 + 256, 1<<14 + 257, 65534, 65535, 65536, 65537, 70000, 131072, 131072 + 5, 196608, 1 << 18} {
+		set[v] = true
+	}
+	var out []int
+	for v := range set {
+		out = append(out, v)
+	}
+	sort.Ints(out)
+	return out
+}
+
+type c05BoundaryCase struct {
+	Len    int     `json:"len"`
+	Cuts   []int64 `json:"cuts,omitempty"`
+	MaxSeg int     `json:"maxSeg,omitempty"`
+	Seed   int64   `json:"seed,omitempty"`
+}
+
+func c05Boundary(tw *kit.TraceWriter, bc c05BoundaryCase) (key, what string, accepted bool) {
+	const bufLen = 1<<18 + 64 // large enough for everything tried
+	a, _, q, _ := c05NewPair()
+	rec := tw != nil && bc.Len >= 4
+	if rec {
+		tw.Emit(map[string]any{"ev": "Reset", "buf": bufLen, "kind": "boundary", "k": 1})
+		tap := &c05TLSTap{emit: func(body []byte) {
+			w, id, ok := c05Decode(body)
+			if !ok {
+				w, id = 0, 0
+			}
+			tw.Emit(map[string]any{"ev": "W", "w": w, "id": id, "len": len(body), "ok": ok})
+		}}
+		q.tap = tap.feed
+	}
+	wr := NewTLSConn(a)
+	var msg []byte
+	if bc.Len >= 4 {
+		msg = c05Msg(1, 1, bc.Len)
+	} else {
+		msg = kit.TokenBytes(77, bc.Len)
+	}
+	sentinel := c05Msg(1, 2, 9)
+	n, err, pan := c05SafeWrite(wr, msg)
+	if pan != "" {
+		return "write-panic", fmt.Sprintf("Write of %d bytes panicked: %s", bc.Len, pan), false
+	}
+	accepted = err == nil
+	if !accepted && rec {
+		tw.Emit(map[string]any{"ev": "WX", "w": 1, "id": 1, "len": bc.Len})
+	}
+	if _, err2, pan2 := c05SafeWrite(wr, sentinel); err2 != nil || pan2 != "" {
+		return "write-error", fmt.Sprintf("after a Write of %d bytes (n=%d err=%v) the next 9-byte Write failed: %v %s", bc.Len, n, err, err2, pan2), accepted
+	}
+	var want [][]byte
+	if accepted {
+		want = append(want, msg)
+	}
+	want = append(want, sentinel)
+	q2 := c05NewPipe()
+	q2.buf, q2.wrOff, q2.wclosed = q.buf, int64(len(q.buf)), true
+	q2.cuts, q2.maxSeg = bc.Cuts, bc.MaxSeg
+	if bc.MaxSeg > 0 {
+		q2.rng = kit.NewRng(bc.Seed)
+	}
+	rd := NewTLSConn(&c05Conn{rd: q2})
+	buf := make([]byte, bufLen)
+	for i := 0; i <= len(want); i++ {
+		got := c05SafeRead(rd, buf)
+		if rec && got.Panic == "" && !(i == len(want) && got.Err != "") {
+			w, id, dok := c05Decode(got.Data)
+			if !dok || got.Err != "" {
+				w, id = 0, 0
+			}
+			tw.Emit(map[string]any{"ev": "R", "w": w, "id": id, "len": got.N, "err": got.Err != ""})
+		}
+		if i == len(want) {
+			if got.Err == "" && got.Panic == "" {
+				return "surplus-return", fmt.Sprintf("length %d (accepted=%v): Read returned %d more bytes after the sentinel", bc.Len, accepted, got.N), accepted
+			}
+			break
+		}
+		if k, w := c05Judge(c05Exp{Len: len(want[i])}, want[i], got); k != "" {
+			if accepted && i == 0 {
+				return "accepted-" + k, fmt.Sprintf("Write accepted a %d-byte message (n=%d, err=nil) but the Read that should deliver it: %s", bc.Len, n, w), accepted
+			}
+			return "sentinel-" + k, fmt.Sprintf("length %d (accepted=%v): the record that follows it: %s", bc.Len, accepted, w), accepted
+		}
+	}
+	if rec {
+		tw.Emit(map[string]any{"ev": "End", "cnt": []int{2}})
+	}
+	return "", "", accepted
+}
+
+func c05BoundaryBody(res *kit.Result, tw *kit.TraceWriter) {
+	t0 := time.Now()
+	rng := kit.NewRng(kit.Seed() + 5)
+	maxAccepted := -1
+	for _, l := range c05BoundaryLens() {
+		cases := []c05BoundaryCase{{Len: l}, {Len: l, MaxSeg: 1460, Seed: int64(rng.Intn(1 << 30))},
+			{Len: l, Cuts: []int64{3, 5, int64(5 + l/2), int64(5 + l), int64(5 + l + 2)}}}
+		if kit.Thorough() {
+			cases = append(cases, c05BoundaryCase{Len: l, MaxSeg: 7, Seed: int64(rng.Intn(1 << 30))}, c05BoundaryCase{Len: l, MaxSeg: 65536, Seed: int64(rng.Intn(1 << 30))})
+		}
+		for ci, bc := range cases {
+			rec := tw
+			if ci > 0 {
+				rec = nil
+			}
+			key, what, acc := c05Boundary(rec, bc)
+			res.Count(fmt.Sprintf("boundary %+v", bc), true)
+			if acc && l > maxAccepted {
+				maxAccepted = l
+			}
+			if key != "" {
+				res.Violate("tls:boundary-"+key, what, map[string]any{"kind": "boundary", "case": bc})
+				break
+			}
+		}
+	}
+	res.Stat("boundary_lengths", int64(len(c05BoundaryLens())))
+	res.Stat("boundary_max_accepted", int64(maxAccepted))
+	res.Stat("boundary_ms", time.Since(t0).Milliseconds())
+}
+
 // ------------------------------------------------------------------------------------------ replay
 
 func c05ReplayFile(t *testing.T, path string) {
 	var rf struct {
 		Key    string `json:"key"`
 		Replay struct {
-			Kind           string       `json:"kind"`
-			Behaviour      c05Behaviour `json:"behaviour"`
-			Concretisation c05Conc      `json:"concretisation"`
-			Case           c05Case      `json:"case"`
-			Run            c05ConcRun   `json:"run"`
+			Kind           string          `json:"kind"`
+			Behaviour      c05Behaviour    `json:"behaviour"`
+			Concretisation c05Conc         `json:"concretisation"`
+			Case           json.RawMessage `json:"case"`
+			Run            c05ConcRun      `json:"run"`
 		} `json:"replay"`
 	}
 	raw, err := os.ReadFile(path)
@@ -1797,7 +2375,10 @@ func c05ReplayFile(t *testing.T, path string) {
 		}
 		fmt.Printf("REPLAY-RESULT key=%q what=%q\n", key, what)
 	case "sweep":
-		cs := rf.Replay.Case
+		var cs c05Case
+		if err := json.Unmarshal(rf.Replay.Case, &cs); err != nil {
+			t.Fatal(err)
+		}
 		var key, what string
 		if cs.Target == "tls" {
 			stream, msgs, err := c05BuildTLSStream(cs.Lens, 500)
@@ -1818,6 +2399,26 @@ func c05ReplayFile(t *testing.T, path string) {
 			key, what, _ = rig.run(&cs, msgs, c05Expect(cs.Lens, cs.Buf, 700))
 		}
 		fmt.Printf("case %+v\nREPLAY-RESULT key=%q what=%q\n", cs, key, what)
+	case "fault":
+		var fc c05FaultCase
+		if err := json.Unmarshal(rf.Replay.Case, &fc); err != nil {
+			t.Fatal(err)
+		}
+		codeBuf, _ := c05CodeBuf()
+		var key, what string
+		if fc.Conn == "pipe" {
+			key, what = c05FaultNetPipe(fc, codeBuf)
+		} else {
+			key, what = c05FaultSeg(nil, fc, codeBuf)
+		}
+		fmt.Printf("case %+v\nREPLAY-RESULT key=%q what=%q\n", fc, key, what)
+	case "boundary":
+		var bc c05BoundaryCase
+		if err := json.Unmarshal(rf.Replay.Case, &bc); err != nil {
+			t.Fatal(err)
+		}
+		key, what, acc := c05Boundary(nil, bc)
+		fmt.Printf("case %+v accepted=%v\nREPLAY-RESULT key=%q what=%q\n", bc, acc, key, what)
 	case "conc":
 		res := kit.NewResult()
 		tw := kit.NewTraceWriter("trace.ndjson")
